@@ -8,6 +8,8 @@ CONSTANTS MaxPre = 0 MaxN = 3
   Places = {"middle"}
   StopFlag = "per_branch"
   CopyMode = "shared"
+  AdapterHides = TRUE
+  VarCopy = "per_value"
   Bufs <- BufQuick
 INVARIANT DriversAgree
 INVARIANT FillReaches
